@@ -240,6 +240,7 @@ def main(argv=None):
                                 "solver": o.get("solver")}))
         else:
             # counter-model not confirmed on the real code (or not concretisable): undecided, bounded enumerator decides
+            o["orig_status"] = o["status"]
             o["status"] = "undecided"
             o["reason"] = (o.get("reason", "") + " counter-model not confirmed by replay").strip()
             undecided.append(o)
@@ -247,17 +248,23 @@ def main(argv=None):
     for o in undecided:
         fam_need_bounded.add(o["family"])
 
-    # lock comparison: obligations proved on the unchanged tree that are no longer proved
+    # lock comparison: obligations discharged on the unchanged tree (names without the path id) that now fail
+    import re as _re
+    strip_path = lambda name: _re.sub(r"/path=[TF]*", "", name)
     locked = lock.get(prop, {})
-    regressions = []
-    if locked:
-        now = collections.Counter((o["family"], o["config"]) for o in proved)
-        for key, cnt in locked.get("proved_per_family", {}).items():
-            fam_name, cfg = key.rsplit("@", 1)
-            if now.get((fam_name, cfg), 0) < cnt:
-                regressions.append((fam_name, cfg, cnt, now.get((fam_name, cfg), 0)))
-        if n_ob == 0 and locked.get("obligations", 0) > 0:
-            checker_errors.append("zero obligations generated although the lock file lists %d" % locked["obligations"])
+    if locked and n_ob == 0 and locked.get("obligations", 0) > 0:
+        checker_errors.append("zero obligations generated although the lock file lists %d" % locked["obligations"])
+    locked_names = {k: set(v) for k, v in locked.get("proved_names", {}).items()}
+    regressed = collections.OrderedDict()          # (family, config) -> list of obligations that were discharged and now fail
+    for o in obligations:
+        if o["status"] == "proved" or o.get("kind") == "engine":
+            continue
+        key = f"{o['family']}@{o['config']}"
+        was = strip_path(o["name"]) in locked_names.get(key, set()) or (
+            o["name"].endswith("]") and "no-exception[" in o["name"] and key in locked_names)
+        if was:
+            regressed.setdefault((o["family"], o["config"]), []).append(o)
+    regressions = [(f_, c_, len(v_)) for (f_, c_), v_ in regressed.items()]
 
     # ---- 2. family-level bounded cross-check -------------------------------------------------
     fam_bounded = []
@@ -304,28 +311,33 @@ def main(argv=None):
                                    {"property": prop, "source": "bounded", "module": bmod, "case": case,
                                     "msg": v["msg"], "sig": v["sig"]}))
 
-    # ---- regressions without a failing input -------------------------------------------------------
-    for fam_name, cfg, was, now_n in regressions:
-        fam_viol = [v for v in violations if fam_name in v[0]]
-        if fam_viol:
+    # ---- obligations that were discharged on the unchanged tree and now fail ----------------------------------------
+    for (fam_name, cfg), obs_ in regressed.items():
+        names = [o["name"] for o in obs_]
+        real = [o for o in obs_ if (o.get("orig_status") or o["status"]).startswith("refuted")]
+        hard = [o for o in obs_ if (o.get("orig_status") or o["status"]) == "refuted"]
+        if not real:
+            notes.append(f"UNDECIDED {fam_name}@{cfg}: {len(obs_)} obligation(s) discharged on the unchanged tree are now undecided "
+                         f"({obs_[0].get('reason', '')[:160]}); no counter-model, bounded stand-in decides")
             continue
-        failing = [o for o in obligations if o["family"] == fam_name and o["config"] == cfg and o["status"] != "proved"]
-        if not failing:
-            notes.append(f"{fam_name}@{cfg}: {now_n} obligations proved, lock lists {was} (paths changed; nothing failing)")
-            continue
-        engine_only = all(o.get("kind") == "engine" for o in failing)
-        if engine_only:
-            notes.append(f"UNDECIDED {fam_name}@{cfg}: the engine no longer supports the function's code "
-                         f"({failing[0].get('reason', '')[:200]}); bounded stand-in only")
-            continue
-        # an obligation that was discharged on the unchanged tree now fails and no failing input was found
-        ob = failing[0]
-        violations.append(("proof:" + fam_name, "obligation-regressed:" + fam_name,
-                           f"obligation {ob['name']} was discharged on the unchanged tree and is now {ob['status']}: "
-                           f"{ob.get('reason', '')}",
-                           {"property": prop, "source": "proof", "family": fam_name, "obligation": ob["name"], "case": None,
-                            "solver_output": ob.get("reason", "") + "\n" + str(ob.get("model", ""))[:1500],
-                            "no_failing_input_found": True}))
+        if any(v[0] == "proof:" + fam_name for v in violations):
+            continue                                    # already reported with a replayed counterexample
+        fb = [v for v in violations if v[0] == "family-bounded:" + fam_name]
+        detail = f"obligation(s) discharged on the unchanged tree now fail: {names[:4]}" + (f" (+{len(names) - 4} more)" if len(names) > 4 else "")
+        if fb:
+            src, sig, msg, payload = fb[0]
+            violations.append(("proof:" + fam_name, sig, detail + "; failing input from the concrete reading of the same contract: " + msg,
+                               dict(payload, source="family-bounded", failed_obligations=names, solver=obs_[0].get("solver"),
+                                    model=str(real[0].get("model", ""))[:1500])))
+        elif hard:
+            ob = hard[0]
+            violations.append(("proof:" + fam_name, "obligation-failed:" + fam_name, detail + f"; solver: {ob.get('solver')} returned a counter-model",
+                               {"property": prop, "source": "proof", "family": fam_name, "obligation": ob["name"], "failed_obligations": names,
+                                "case": None, "solver_output": (ob.get("reason", "") + "\n" + str(ob.get("model", "")))[:3000],
+                                "no_failing_input_found": True}))
+        else:
+            notes.append(f"UNDECIDED {fam_name}@{cfg}: {names[:3]} have a counter-model of the instantiated hypotheses only "
+                         f"(quantified check inconclusive) and no failing input was found inside the bounds")
 
     # ---- verdict ---------------------------------------------------------------------------------
     reported, known_hits = [], collections.OrderedDict()
@@ -426,7 +438,11 @@ def main(argv=None):
           f"bounded_evaluations={n_bounded} violations={len(reported)} known={len(known_hits)} wall={ev['wall_s']}s")
     if os.environ.get("VERIF_WRITE_LOCK") == "1":
         per = collections.Counter(f"{o['family']}@{o['config']}" for o in proved)
-        lock[prop] = {"obligations": n_ob, "proved": len(proved), "proved_per_family": dict(per)}
+        names = {}
+        for o in proved:
+            names.setdefault(f"{o['family']}@{o['config']}", set()).add(strip_path(o["name"]))
+        lock[prop] = {"obligations": n_ob, "proved": len(proved), "proved_per_family": dict(per),
+                      "proved_names": {k: sorted(v) for k, v in names.items()}}
         json.dump(lock, open(lock_path, "w"), indent=1, sort_keys=True)
     if reported:
         return 1
